@@ -28,7 +28,9 @@ ASSUMPTIONS = ['beancount.parser.printer, parser.parse_string and loader.load_st
 FROMS = ['', 'FROM year = 2020', 'FROM flag = "*"', 'FROM year >= 2019 AND month <= 6', 'FROM OPEN ON 2020-01-01', 'FROM CLOSE ON 2020-07-01',
          'FROM OPEN ON 2019-07-01 CLOSE ON 2020-07-01 CLEAR', 'FROM year = 2020 CLOSE', 'FROM "trip" IN tags', 'FROM has_account("Cash")', 'FROM CLEAR']
 WHERES = ['', 'WHERE account ~ "Assets"', 'WHERE currency = "USD"', 'WHERE number > 0', 'WHERE account ~ "Nope"', 'WHERE year = 2020 AND NOT account ~ "Equity"']
-PATTERNS = [None, 'Assets', '^Assets', 'Food|Rent', 'assets:BANK', 'Assets:.*:Checking', 'Nope', 'Cash$', 'A', 'Broker(:Sub)?']
+PATTERNS = [None, 'Assets', '^Assets', 'Food|Rent', 'assets:BANK', 'Assets:.*:Checking', 'Nope', 'Cash$', 'A', 'Broker(:Sub)?',
+            # regular-expression escapes and characters that matter to quoting
+            r'^Assets:\w+$', r'Bank\b', r'Assets:\w+:\w+', r'\bFood', r'Expenses:[A-Z]\w*$', r'Income\.', r'\d', r'^[^:]+:[^:]+$', "Cash'?", r'Assets:(Cash|EUR)\Z']
 FUNCS = [None, 'units', 'cost']
 
 
